@@ -346,3 +346,19 @@ package diff
 //@ loop 1 invariant vs_all(func(i int) bool { return 0 <= i && i < vs_done(1) ==> !ignores.Contains(sd[i]) }) ==> len(newDiffs) == vs_done(1) && vs_all(func(i int) bool { return 0 <= i && i < vs_done(1) ==> vs_reclassified(newDiffs[i], sd[i]) })
 //@ loop 1 invariant vs_all(func(k int) bool { return 0 <= k && k < len(newDiffs) ==> vs_any(func(i int) bool { return 0 <= i && i < vs_done(1) && !ignores.Contains(sd[i]) && vs_reclassified(newDiffs[k], sd[i]) }) })
 //@ loop 1 invariant vs_all(func(i int) bool { return 0 <= i && i < vs_done(1) && !ignores.Contains(sd[i]) ==> vs_any(func(k int) bool { return 0 <= k && k < len(newDiffs) && vs_reclassified(newDiffs[k], sd[i]) }) })
+
+//@ func fromArrayStruct.DiffsTo
+//@ props C12 C13 C14 C07
+//@ safety
+//@ modifies nothing
+//@ ensures f.from == nil ==> vs_same(added, toArray) && len(deleted) == 0 && len(common) == 0
+//@ ensures f.from != nil ==> vs_all(func(s string) bool { return vs_in(added, s) == (vs_in(toArray, s) && !vs_in(f.from, s)) })
+//@ ensures f.from != nil ==> vs_all(func(s string) bool { return vs_in(deleted, s) == (vs_in(f.from, s) && !vs_in(toArray, s)) })
+//@ ensures f.from != nil ==> vs_all(func(s string) bool { return vs_in(common, s) == (vs_in(f.from, s) && vs_in(toArray, s)) })
+//@ loop 1 invariant m != nil && vs_all(func(s string) bool { return vs_has(m, s) == vs_inPrefix(f.from, vs_done(1), s) }) && vs_all(func(s string) bool { return vs_has(m, s) ==> m[s] == 1 })
+//@ loop 2 invariant m != nil && vs_all(func(s string) bool { return vs_has(m, s) == (vs_in(f.from, s) || vs_inPrefix(toArray, vs_done(2), s)) })
+//@ loop 2 invariant vs_all(func(s string) bool { return vs_has(m, s) ==> m[s] == vs_flags(vs_in(f.from, s), vs_inPrefix(toArray, vs_done(2), s)) })
+//@ loop 3 invariant vs_all(func(s string) bool { return vs_in(deleted, s) == (vs_visited(1, s) && m[s] == 1) })
+//@ loop 3 invariant vs_all(func(s string) bool { return vs_in(added, s) == (vs_visited(1, s) && m[s] == 2) })
+//@ loop 3 invariant vs_all(func(s string) bool { return vs_in(common, s) == (vs_visited(1, s) && m[s] == 3) })
+//@ loop 3 invariant m != nil && vs_all(func(s string) bool { return vs_has(m, s) == (vs_in(f.from, s) || vs_in(toArray, s)) }) && vs_all(func(s string) bool { return vs_has(m, s) ==> m[s] == vs_flags(vs_in(f.from, s), vs_in(toArray, s)) })
